@@ -16,7 +16,7 @@ CFG = dict(
          "real summary message are checked against the float64 fields. Non-trivial = the record is not constant or projectors are loaded; "
          "distinct by input line.",
     nontrivial=["varied", "proj"],
-    jobs=seeds(1, 6),
+    jobs=seeds(1, 4),
     trusted_base=["IEEE-754 binary64/binary32 bit patterns decoded by f64OfBits/f32OfBits in Model/C13.lean (sanity-checked by #guard)",
                   "Go's uint16->int16->float64 conversions as transcribed (toInt16)",
                   "the rounding tolerances are standard forward error bounds with a safety factor, stated in Model/C13.lean; they are "
@@ -35,7 +35,8 @@ MANIFEST = dict(
          "= least-squares slope x (n-1) for n>=2; sum/N - m = mean(y-m); sum2/N - 2m*sum/N + m^2 = mean((y-m)^2) (and the clamp before the "
          "square root is a no-op exactly); running maximum - m = the attained maximum of y-m, of either sign; int16 reinterpretation = "
          "two's complement; MulVec rows = sum_j P_kj x_j; SubVec + two-pass stdDev = population variance of x - B(Px); SetProjectorsBasis "
-         "accepts exactly the compatible shapes (umbrella: C13_formulas_equal_definitions). The real AnalyzeData (directly and through the "
+         "accepts exactly the compatible shapes (umbrella: C13_formulas_equal_definitions); the run-time oracle accepts every output that "
+         "reports exactly these values (C13_oracle_accepts_exact). The real AnalyzeData (directly and through the "
          "block-processing pipeline), its float64 results and the float32 values of the real summary message are compared on every run "
          "with the exactly evaluated definitions within stated rounding tolerances.",
     note="Trusted: Lean 4.33 kernel (axioms propext, Classical.choice, Quot.sound only; audited every run); the hand-written model is tied "
@@ -69,4 +70,5 @@ THEOREMS = [
     ("DastardV.Props.C13", "DastardV.C13.stdDevSq_def"),
     ("DastardV.Props.C13", "DastardV.C13.popVar_alt"),
     ("DastardV.Props.C13", "DastardV.C13.resid_std_def"),
+    ("DastardV.Props.C13", "DastardV.C13.C13_oracle_accepts_exact"),
 ]
